@@ -50,6 +50,20 @@ func MaybeWorker() {
 		fmt.Fprintln(os.Stderr, "c09 worker: setrlimit:", err)
 		os.Exit(3)
 	}
+	// Orphan guard: if the parent disappears while a measurement is spinning, exit.
+	// The goroutine only sleeps; it is started (and its timer allocated) before the
+	// first measurement window opens, so it never allocates inside one (the
+	// calibration request verifies that an empty window reads 0 bytes).
+	ppid := os.Getppid()
+	go func() {
+		for {
+			time.Sleep(time.Second)
+			if os.Getppid() != ppid {
+				os.Exit(6)
+			}
+		}
+	}()
+	time.Sleep(2 * time.Millisecond)
 	os.Exit(workerLoop())
 }
 
